@@ -351,6 +351,10 @@ func pairOps() []pairOp {
 
 func pairHistories(c *engine.Ctx) {
 	c.Group("pair-histories")
+	if !c.Thorough() {
+		c.SetOrderSweep(false) // quick tier: ascending map order only for the 8.6 million pair histories
+		defer c.SetOrderSweep(true)
+	}
 	all := pairOps()
 	depth := 3
 	if c.Thorough() {
